@@ -133,7 +133,10 @@ def run_case(c, kind, builder, detector, mean, rng):
             got = positions_signature(fp, chunks, lazy)
             if len(got) != len(ref_pos) or any(not np.array_equal(a, b) for a, b in zip(got, ref_pos)):
                 ev["positions_same"] = False
-        lz = arr(wave.multislice(mk(fp) if kind.endswith("_built") else pot, detectors=det, lazy=True, max_batch=rng.choice([1, 2, "auto"]), **kw))
+        import zlib
+        from ..routes import reroute
+        lazy_pot, ev["route_lazy"] = reroute(mk(fp) if kind.endswith("_built") else pot, zlib.crc32(json.dumps([c, kind, builder, detector, mean], default=str).encode()))
+        lz = arr(wave.multislice(lazy_pot, detectors=det, lazy=True, max_batch=rng.choice([1, 2, "auto"]), **kw))
         ev["lazy_ppb"] = ppb(relerr(lz, full))
         if kind in ("frozen_phonons", "frozen_phonons_built"):
             # two ensembles that differ ONLY in their seeds, computed in one dask graph: each keeps its own configurations
